@@ -579,6 +579,16 @@ fn open_raw(path: &PathBuf, flags: i32) -> i32 {
     fd
 }
 
+/// Both fail, and with the same error where a10 passes the kernel's error on. a10 reports the
+/// kernel's EINVAL/EOPNOTSUPP as its own "unsupported" error (by design: io_uring answers
+/// unknown operations that way); the statement asks for failure exactly when the call fails.
+fn same_failure(e: &std::io::Error, errno: i32) -> bool {
+    match e.raw_os_error() {
+        Some(n) => n == errno,
+        None => e.kind() == std::io::ErrorKind::Unsupported && (errno == libc::EINVAL || errno == libc::EOPNOTSUPP),
+    }
+}
+
 fn errno() -> i32 {
     std::io::Error::last_os_error().raw_os_error().unwrap_or(0)
 }
@@ -603,6 +613,13 @@ fn run_real(id: u16, direct: bool, out: &mut Vec<Violation>) {
 }
 
 pub const N_REAL: u16 = 21;
+
+/// Thorough tier: larger argument alphabets in the real-kernel scenarios.
+static THOROUGH: std::sync::atomic::AtomicBool = std::sync::atomic::AtomicBool::new(false);
+
+fn thorough() -> bool {
+    THOROUGH.load(std::sync::atomic::Ordering::Relaxed)
+}
 
 /// A socket name through a10; `None` when the kernel has no way to answer for
 /// a direct descriptor (EOPNOTSUPP), which is not judged. Any other failure is.
@@ -636,8 +653,14 @@ fn run_real_inner(id: u16, direct: bool) -> Vec<Violation> {
             let data = content(3 * page + 100);
             let pa = fx.file("a", &data);
             let pb = fx.file("b", &data);
-            for off in [None, Some(0u64), Some(1), Some(4095), Some(4096), Some(data.len() as u64), Some(data.len() as u64 + 10)] {
-                for len in [0usize, 1, page - 1, page, 3 * page] {
+            let mut offs = vec![None, Some(0u64), Some(1), Some(4095), Some(4096), Some(data.len() as u64), Some(data.len() as u64 + 10)];
+            let mut lens = vec![0usize, 1, page - 1, page, 3 * page];
+            if thorough() {
+                offs.extend([Some(2), Some(511), Some(512), Some(4097), Some(8191), Some(8192), Some(data.len() as u64 - 1), Some(1 << 40), Some(i64::MAX as u64)]);
+                lens.extend([2, 3, 7, 100, 511, 512, 513, page + 1, 2 * page, 3 * page + 100, 4 * page]);
+            }
+            for off in offs {
+                for &len in &lens {
                     let raw = open_raw(&pa, libc::O_RDONLY);
                     let afd = unsafe { AsyncFd::from_raw_fd(raw, sq.clone()) };
                     let dfd = target(&mut ring, &afd, direct);
@@ -675,7 +698,7 @@ fn run_real_inner(id: u16, direct: bool) -> Vec<Violation> {
                     let pos_l = unsafe { libc::lseek(lfd, 0, libc::SEEK_CUR) };
                     let same = match (&got, &want) {
                         (Ok(a), Ok(b)) => a == b,
-                        (Err(e), Err(n)) => e.raw_os_error() == Some(*n),
+                        (Err(e), Err(n)) => same_failure(e, *n),
                         _ => false,
                     };
                     if !same || pos_a != pos_l {
@@ -691,8 +714,14 @@ fn run_real_inner(id: u16, direct: bool) -> Vec<Violation> {
         // write / pwrite / writev.
         2 | 3 => {
             let base = content(page + 50);
-            for off in [None, Some(0u64), Some(1), Some(4095), Some(4096), Some(base.len() as u64 + 100)] {
-                for len in [0usize, 1, page - 1, page + 7] {
+            let mut offs = vec![None, Some(0u64), Some(1), Some(4095), Some(4096), Some(base.len() as u64 + 100)];
+            let mut lens = vec![0usize, 1, page - 1, page + 7];
+            if thorough() {
+                offs.extend([Some(2), Some(511), Some(512), Some(4097), Some(base.len() as u64 - 1), Some(base.len() as u64), Some(20_000)]);
+                lens.extend([2, 3, 7, 100, 511, 512, 513, page, page + 1, 2 * page + 3]);
+            }
+            for off in offs {
+                for &len in &lens {
                     let pa = fx.file("wa", &base);
                     let pb = fx.file("wb", &base);
                     let raw = open_raw(&pa, libc::O_RDWR);
@@ -734,7 +763,7 @@ fn run_real_inner(id: u16, direct: bool) -> Vec<Violation> {
                     let fb = std::fs::read(&pb).unwrap();
                     let same = match (&got, &want) {
                         (Ok(a), Ok(b)) => a == b,
-                        (Err(e), Err(n)) => e.raw_os_error() == Some(*n),
+                        (Err(e), Err(n)) => same_failure(e, *n),
                         _ => false,
                     };
                     if !same || pos_a != pos_l || fa != fb {
@@ -772,7 +801,7 @@ fn run_real_inner(id: u16, direct: bool) -> Vec<Violation> {
                         let want = if lfd < 0 { Err(errno()) } else { Ok(()) };
                         let same = match (&got, &want) {
                             (Ok(_), Ok(())) => true,
-                            (Err(e), Err(n)) => e.raw_os_error() == Some(*n),
+                            (Err(e), Err(n)) => same_failure(e, *n),
                             _ => false,
                         };
                         let sa = std::fs::metadata(&pa).ok().map(|m| { use std::os::unix::fs::PermissionsExt; (m.len(), m.permissions().mode() & 0o777) });
@@ -803,7 +832,7 @@ fn run_real_inner(id: u16, direct: bool) -> Vec<Violation> {
                 let w = if want == 0 { Ok(()) } else { Err(errno()) };
                 let same = match (&got, &w) {
                     (Ok(()), Ok(())) => true,
-                    (Err(e), Err(n)) => e.raw_os_error() == Some(*n),
+                    (Err(e), Err(n)) => same_failure(e, *n),
                     _ => false,
                 };
                 if !same {
@@ -1519,7 +1548,8 @@ fn run_real_inner(id: u16, direct: bool) -> Vec<Violation> {
             use a10::io::{Buf, BufMut, BufMutSlice, BufSlice};
             let parts: [&[u8]; 3] = [b"Hello", b" world", b"!!!"];
             let total: usize = parts.iter().map(|p| p.len()).sum();
-            for limit in [0usize, 1, 3, 5, 6, 8, 11, 12, 14, 100] {
+            let limits: Vec<usize> = if thorough() { (0..=17).chain([100, usize::MAX]).collect() } else { vec![0usize, 1, 3, 5, 6, 8, 11, 12, 14, 100] };
+            for limit in limits {
                 // write_vectored(bufs.limit(n)) vs writev of the truncated iovecs.
                 let pa = fx.file("la", b"");
                 let pb = fx.file("lb", b"");
@@ -1629,8 +1659,9 @@ pub fn run(case: &Case) -> Vec<Violation> {
     out
 }
 
-pub fn cases(_quick: bool) -> Vec<Case> {
+pub fn cases(quick: bool) -> Vec<Case> {
     use Kind::*;
+    THOROUGH.store(!quick, std::sync::atomic::Ordering::Relaxed);
     let mut v = Vec::new();
     for kind in [
         ReadVec, ReadVecPrefilled, ReadLimited, WriteVec, WriteStatic, WriteString, WriteBoxed, WriteArc, ReadVectored2, WriteVectored2,
